@@ -383,6 +383,33 @@ def r_pure(spec, data):
             ok = list(int(v) for v in got[iname].seq) == list(range(-window, 0))
             bad |= not ok
         return bad
+    if which == "cycle_repaired":
+        # real nodes in an un-skipped cycle: the loop is reported; after one connection is skipped the phases must be computed again
+        from rex.node import BaseNode
+        L = int(spec.get("L", 3))
+        ns = [BaseNode(f"n{i}", rate=10.0, delay=0.01 * (i + 1)) for i in range(L)]
+        for i in range(L):
+            ns[(i + 1) % L].connect(ns[i], name=f"from_n{i}", delay=0.001 * (i + 1), blocking=False)
+        reported = 0
+        for q in range(2 if spec.get("twice") else 1):
+            try:
+                ns[q].phase
+            except RecursionError:
+                reported += 1
+        print(f"cycle of {L}: reported {reported} time(s)")
+        ns[0].inputs[f"from_n{L - 1}"].skip = True
+        try:
+            ph = [float(n.phase) for n in ns]
+        except RecursionError as e:
+            print("after skipping n%d -> n0 the phase query STILL raises:" % (L - 1), str(e).splitlines()[0])
+            return True
+        want, acc = [0.0], 0.0
+        for i in range(1, L):
+            acc += 0.01 * i + 0.001 * i
+            want.append(acc)
+        ok = all(abs(a - b) < 1e-9 for a, b in zip(ph, want))
+        print("phases after the repair:", ph, "expected", want, "ok" if ok else "VIOLATED")
+        return not ok
     if which == "reward_norm":
         import jax.numpy as jnp
         from rex.rl import NormalizeVecReward, NormalizeVec
